@@ -15,7 +15,8 @@
 (***************************************************************************)
 EXTENDS Naturals, Sequences, FiniteSets, TLC
 
-CONSTANTS NTasks, N, MaxOps, Labels, Levels, Bug
+CONSTANTS NTasks, N, MaxOps, Labels, Levels, Bug,
+          OwnTraces    \* what a scope may be given as its trace id: subset of {"no", "own", "empty"}
 (* Labels \subseteq {"plain", "empty", "fmt", "pct"}; Levels \subseteq {"debug","info","warning","error"} *)
 
 Tasks == 1..NTasks
@@ -104,7 +105,7 @@ Start(t, u) ==
   /\ obs' = NoLine
 
 Next == \E t \in Tasks :
-          \/ \E lab \in Labels, ol \in BOOLEAN, ot \in {"no", "own", "empty"} : Open(t, lab, ol, ot)
+          \/ \E lab \in Labels, ol \in BOOLEAN, ot \in OwnTraces : Open(t, lab, ol, ot)
           \/ \E how \in {"return", "cancel"} : Close(t, how)
           \/ \E lvl \in Levels, text \in Texts, exc \in BOOLEAN : Log(t, lvl, text, exc)
           \/ \E u \in Tasks : Start(t, u)
